@@ -378,7 +378,59 @@ def c13(tier):
     return jobs, meta
 
 
+def c05(tier):
+    import templates
+    q = tier == 'quick'
+    srcs = templates.gen(1) if q else templates.gen(2, quick=True) + [s for s in templates.gen(3) if s not in templates.gen(2)]
+    jobs = []
+    for src in srcs:
+        for opt in ((1,) if q else (1, 0)):
+            jobs.append((H('.', 'HarnessC05Program'), P('.'), None, {'params': {'src': src, 'optimize': opt, 'maxlen': 2}, 'label': '%s [opt %d]' % (src, opt), 'job_timeout': 300 if q else 900}))
+    sizes = [10900, 10930, 21800, 21843, 21846, 22000] if q else [5000, 10900, 10921, 10922, 10923, 10930, 16000, 21800, 21840, 21841, 21842, 21843, 21844, 21845, 21846, 21847, 22000, 30000]
+    for shape in (0, 1, 2, 3):
+        for n in sizes:
+            for skiponly in ((1,) if q else (1, 0)):
+                if skiponly == 0 and n > 21800:
+                    continue
+                jobs.append((H('.', 'HarnessC05Large'), P('.'), None, {'params': {'shape': shape, 'n': n, 'skiponly': skiponly}, 'label': 'large shape=%d n=%d skiponly=%d' % (shape, n, skiponly), 'instr_budget': 300000000, 'job_timeout': 1500}))
+    meta = {
+        'explanation': '(a) every template program compiled by the real pipeline is decoded by an independent verifier (operand table written from the opcode list: known opcodes, constant operands in range and of the kind the instruction expects - string, regexp, call descriptor -, every jump on an instruction boundary inside the program or at its end); (b) it is run on a caller-owned VM with a SYMBOLIC environment driving every branch: no run fails by popping an empty stack, every successful run ends with an empty stack (exactly the result was left) and no loop scope open; (c) programs whose branches and loop bodies are around and beyond 64 KiB of bytecode (n three-byte operands, n around 32768/3 and 65536/3) are built as syntax trees and compiled by the real compiler: either compilation fails or the program is well formed and the jump over/into the large block lands on its label (result equals the definition)',
+        'bounds': {'templates': len(srcs), 'arrays': '<= 2', 'large blocks': 'n in %s identifiers of 3 bytes' % sizes, 'shapes': 'conditional (both arms), short-circuit and, loop body'},
+        'outside': ['the symbolic-child-length induction over code-generation schemes of DESIGN.md section 3 (not built: block lengths are concrete sizes here)', 'programs with more than 65535 distinct constants (limit exists in makeConstant; exercising it costs > 10^7 interpreted instructions)', 'programs not produced by Compile'],
+        'assumptions': COMMON_ASSUME + ['the operand table of the harness verifier (vfOperandKind) states which instructions carry which operand'],
+        'must_reach': ['c05.compiled', 'c05.ran', 'c05.large.compiled', 'c05.large.ran', 'c05.large.refused'],
+    }
+    return jobs, meta
+
+
+def c09(tier):
+    import templates
+    q = tier == 'quick'
+    srcs = templates.gen(1) if q else templates.gen(2, quick=True)
+    srcs = [s for s in srcs] + templates.C02_TEMPLATES[::3 if q else 1]
+    if q:
+        srcs = srcs[SEED[0] % 2::2]
+    jobs = []
+    for n, src in enumerate(srcs):
+        for mapenv in ((1 if n % 5 == 0 else 0,) if q else (0, 1)):
+            jobs.append((H('.', 'HarnessC09Purity'), P('.'), None, {'params': {'src': src, 'optimize': 1, 'maxlen': 2, 'longxs': 0, 'mapenv': mapenv}, 'label': '%s [mapenv %d]' % (src, mapenv), 'job_timeout': 300 if q else 900}))
+    for src in ['A in Xs', 'A not in Xs', 'count(Ys, {# in Xs})', 'Xs[0] + (A in Xs ? 1 : 0)', '[Xs[0], A in Xs]', 'filter(Xs, {# > A})', 'map(Xs, {# * 2})', 'Xs[1:3]', 'len(Xs)']:
+        jobs.append((H('.', 'HarnessC09Purity'), P('.'), None, {'params': {'src': src, 'optimize': 1, 'maxlen': 2, 'longxs': 1, 'mapenv': 0}, 'label': src + ' [long Xs]', 'job_timeout': 600}))
+    for src in ['PtrAdd(1)', 'Twice(1)', 'A + B', 'Fn(1)', 'M.a', 'Zz + 1', 'PtrAdd(1) + A']:
+        jobs.append((H('.', 'HarnessC09History'), P('.'), None, {'params': {'src': src}, 'label': 'history ' + src}))
+    meta = {
+        'explanation': 'each template is compiled twice by the real pipeline with every map iteration order (range over maps, reflect MapKeys - types table creation, Config.Check) made a SYMBOLIC choice (identity / reversed / rotated): the two programs must be equal byte for byte and constant for constant; Compile must not modify the sample environment; the program then runs on a symbolic environment (struct or map form) and program (bytecode, constants incl. folded slices and lookup maps) and environment (slices, nested slices, map, pointer chain) are compared with deep snapshots taken before the run; running again on the equal snapshot environment must give an equal result; 40-element descending env slices exercise size-dependent code paths; compilation histories (other option sets compiled in between) must not change a compilation',
+        'bounds': {'templates': len(srcs), 'map orders': '3 per iteration', 'arrays': '<= 2 (and one concrete 40-element slice)', 'history': 'one compilation with other options in between'},
+        'outside': ['cross-process determinism', 'address-dependent behaviour', 'user visitors and environment functions'],
+        'assumptions': COMMON_ASSUME,
+        'must_reach': ['c09.compiled-twice', 'c09.ran', 'c09.history.compiled'],
+    }
+    return jobs, meta
+
+
 PROPS = {
+    'C09': c09,
+    'C05': c05,
     'C13': c13,
     'C16': c16,
     'C03': c03,
